@@ -30,7 +30,7 @@
 From FrameModel Require Import Num.QcTac Geometry.Rect Alloc.Alloc Yaml.Tree Yaml.NetlistRead Yaml.NetlistWrite
   Yaml.Netgen Yaml.NetgenFacts Yaml.NetgenHTree Yaml.DieAlloc Yaml.DieAllocFacts Yaml.Producers
   Yaml.ProducersFacts Yaml.ProducersPartial Yaml.ProducersRT Yaml.ProducersFloat Yaml.ProducersAlloc
-  Yaml.NetgenGridCenters Yaml.ProducersText Yaml.ProducersTextFacts.
+  Yaml.NetgenGridCenters Yaml.ProducersText Yaml.ProducersTextFacts Yaml.ProducersTwin.
 Open Scope Qc_scope.
 
 (* ---------------- the die ---------------- *)
@@ -210,6 +210,18 @@ Theorem C19_legal_rt_example : forall sqrt_o,
   exists n, read_netlist sqrt_o eps_ref doc_weight_rects = Ok n /\ buildable n.
 Proof. exact legal_rt_example. Qed.
 Print Assumptions C19_legal_rt_example.
+
+(* the round trips include the tie of create_stog: a module of two congruent rectangles sharing a
+   whole side (both can be the trunk, equal areas) keeps the rectangle listed first in front through
+   solution_to_netlist, legal_netlist and the reader *)
+Theorem C19_twin_rectangles_example : forall sqrt_o,
+  exists n n' t n'',
+    read_netlist sqrt_o eps_ref twin_doc = Ok n /\ buildable n /\
+    rect_order n = [[(qc 503 1, TRUNK); (qc 501 1, WEST)]] /\
+    read_netlist sqrt_o eps_ref (solution_to_netlist n []) = Ok n' /\ rect_order n' = rect_order n /\
+    legal_netlist n = Some t /\ read_netlist sqrt_o eps_ref t = Ok n'' /\ rect_order n'' = rect_order n.
+Proof. exact twin_example. Qed.
+Print Assumptions C19_twin_rectangles_example.
 
 (* ---------------- the string builders as found ---------------- *)
 Definition C19_solution_found_rt_statement : Prop := solution_found_rt_statement.
